@@ -238,7 +238,11 @@ class Vertex(base.BaseObject):
         """
         if link not in self._links:
             self._links.append(link)
-            if self not in link.vertices:
+
+            # "this vertex" means this very object: a subclass may define value
+            # equality, and an end of the link that merely compares equal to
+            # this vertex must not stand in for it
+            if not any(vert is self for vert in link.vertices):
                 link.add_vertex(self)
 
         self._qa_neighbors_invalidate()
